@@ -13,7 +13,7 @@ import (
 
 func c03Counts(tier string) (bulk, large int) {
 	if tier == "thorough" {
-		return 300000, 64 + 2*len(c03RingSizes(tier))
+		return 800000, 64 + 2*len(c03RingSizes(tier))
 	}
 	return 10000, 8 + 2*len(c03RingSizes(tier))
 }
